@@ -15,6 +15,7 @@ CONF = {
     "C07": {"quick": 800, "thorough": 40000, "batch": 50, "min_distinct": 20, "loops": [1, 2], "env_alt": [{}, {"GODEBUG": "asynctimerchan=0"}]},
     "C08": {"quick": 480, "thorough": 20000, "batch": 30, "min_distinct": 20, "loops": [1, 2], "env_alt": [{}, {"GODEBUG": "asynctimerchan=0"}]},
     "C10": {"quick": 480, "thorough": 20000, "batch": 30, "min_distinct": 8, "loops": [1, 1, 2]},
+    "C14": {"quick": 480, "thorough": 20000, "batch": 30, "min_distinct": 20, "loops": [1, 2]},
     "C13": {"quick": 240, "thorough": 8000, "batch": 15, "min_distinct": 12, "loops": [2, 1, 2]},
     "C12": {"quick": 384, "thorough": 12800, "batch": 32, "min_distinct": 40, "loops": [1, 2]},
     "C09": {"quick": 1600, "thorough": 60000, "batch": 100, "min_distinct": 20, "loops": [1, 2]},
